@@ -81,3 +81,34 @@ Fixpoint flat (t : tree) : option leaf :=
   end.
 
 Definition keys (l : leaf) : list string := map fst (l_props l).
+
+(** * The legacy merge (mergeSchemasV1, compatibility.old-merge-schemas): what it decides about additional properties.
+    A member either has none ([None]) or has them with a value type ([Some t], the type's declaration text).  The
+    aggregate starts without; the first member that has them switches them on with its type, later members that have
+    them must have the same type (else the composition is rejected), members without leave the aggregate alone.
+    State: [None] = rejected, [Some agg] = aggregate so far. *)
+Definition v1_step (acc : option (option string)) (m : option string) : option (option string) :=
+  match acc with
+  | None => None
+  | Some agg =>
+      match m with
+      | None => Some agg
+      | Some t => match agg with
+                  | None => Some (Some t)
+                  | Some t0 => if String.eqb t t0 then Some agg else None
+                  end
+      end
+  end.
+Definition v1_addl (ms : list (option string)) : option (option string) := fold_left v1_step ms (Some None).
+
+(** the flattened test: a member without additional properties takes the aggregate's away *)
+Definition v1_step_flat (acc : option (option string)) (m : option string) : option (option string) :=
+  match acc with
+  | None => None
+  | Some agg =>
+      match m, agg with
+      | Some t, Some t0 => if String.eqb t t0 then Some agg else None
+      | _, _ => Some m
+      end
+  end.
+Definition v1_addl_flat (ms : list (option string)) : option (option string) := fold_left v1_step_flat ms (Some None).
